@@ -97,6 +97,11 @@ def boot(registries=False):
     if not _booted:
         warnings.filterwarnings("ignore", message="pkg_resources is deprecated")
         warnings.filterwarnings("ignore", category=DeprecationWarning)
+        try:
+            from Bio import BiopythonParserWarning
+            warnings.filterwarnings("ignore", category=BiopythonParserWarning)
+        except ImportError:
+            pass
         sys.path.insert(0, os.path.join(REPO, "moclo"))
         import moclo.kits
         import moclo.registry
